@@ -878,6 +878,9 @@ class DatasetBuilder:
 
         # no nulls: use as-is
         if np.all(valid) and np.all(v_valid):
+            self.schema.entities[cls].attributes[name] = ColumnSpec(
+                layout=AttrLayout.VECTOR, vector_size=values.type.list_size
+            )
             return values
 
         # find the rows where we have a valid column value
